@@ -6,7 +6,7 @@ from . import core, gen, trees
 from .decomp import decompose
 
 ERRNO = {"EIO": 5, "ENOSPC": 28, "EACCES": 13, "EXDEV": 18, "EROFS": 30, "EMFILE": 24, "EDQUOT": 122, "ENOENT": 2, "EPERM": 1,
-         "EEXIST": 17, "EINTR": 4, "EBUSY": 16, "ENAMETOOLONG": 36, "ETXTBSY": 26, "ENOTEMPTY": 39, "EISDIR": 21}
+         "EEXIST": 17, "EINTR": 4, "EBUSY": 16, "ENAMETOOLONG": 36, "ETXTBSY": 26, "ENOTEMPTY": 39, "EISDIR": 21, "EPIPE": 32}
 
 
 class Project:
@@ -56,7 +56,7 @@ def small_project(rnd, nfiles=3, stmts=(1, 4), structured=False, use_cache=None,
             f["target"] = rnd.choice(["none", "plain"])
             f["msg"] = rnd.choice(["plain", "unicode", "placeholder"])
             f["pre"] = "indent"
-            if rnd.random() < 0.2:
+            if k > 0 and rnd.random() < 0.2:         # the first statement of every file lacks a reference: every file has work
                 f["ref"] = "valid"
             kv_ref = None
             if structured and f["ref"] == "valid":
@@ -134,14 +134,32 @@ def foreign_tmpdir(box):
     return d
 
 
-def clean_reference(built, proj, check=False, xdev=False, stdio_ops=False):
+def read_fault_rules(ops):
+    """Injections on the read(2) calls the run makes on source files: the read fails, returns only part of what was asked for
+    (legal: FUSE / NFS transfer sizes), or returns a part and the next one fails; plus 'every read is short'."""
+    out = []
+    for o in ops:
+        if o["kind"] != "read" or not (o["path"] or "").endswith(".rs"):
+            continue
+        k = o["n"]
+        for e in ("EIO", "EINTR", "EACCES"):
+            out.append(("read-%s@%d" % (e, k), "n=%d,act=errno:%d" % (k, ERRNO[e])))
+        if o["bytes"] > 1:
+            out.append(("read-short@%d" % k, "n=%d,act=short" % k))
+            out.append(("read-short+EIO@%d" % k, "n=%d,act=short;n=%d,kind=read,act=errno:5" % (k, k + 1)))
+    if out:
+        out.append(("all-reads-short", "kind=read,act=short"))
+    return out
+
+
+def clean_reference(built, proj, check=False, xdev=False, stdio_ops=False, read_ops=False):
     """Run once without injection; returns (ops, after_files, rec, expected_offsets per file)."""
     import shutil
     with core.Box(tag="ref") as box:
         cfg = proj.materialise(box)
         td = foreign_tmpdir(box) if xdev else None
         try:
-            rec = core.run_breadlog(built, box, cfg, check=check, shim=True, tmpdir=td, stdio_ops=stdio_ops)
+            rec = core.run_breadlog(built, box, cfg, check=check, shim=True, tmpdir=td, stdio_ops=stdio_ops, read_ops=read_ops)
         finally:
             if td:
                 shutil.rmtree(td, ignore_errors=True)
